@@ -257,7 +257,13 @@ pub struct RunOut {
 }
 
 pub fn run_conversation(kind: Kind, crc: bool, csd: [u8; 16], ops: &[SdOp], ch: Chooser) -> (Chooser, RunOut) {
+    run_conversation_f(kind, crc, csd, ops, ch, Fault::None)
+}
+
+/// The same on a card with a (legal) peculiarity, e.g. another spelling of the "data accepted" token.
+pub fn run_conversation_f(kind: Kind, crc: bool, csd: [u8; 16], ops: &[SdOp], ch: Chooser, fault: Fault) -> (Chooser, RunOut) {
     let mut card = Card::new(kind, csd);
+    card.fault = fault;
     card.chooser = ch;
     card.monitor = Some(Box::new(Monitor::new()));
     let c = conv(card, crc);
@@ -529,6 +535,31 @@ fn explore_sd(prop: &str, tier: &str, with_beyond: bool) -> Agg {
     agg
 }
 
+/// The upper three bits of the data-response token are "don't care": every token with xxx0_0101 means "accepted".
+fn accept_token_sweep() -> (Vec<Violation>, u64) {
+    let mut out: Vec<Violation> = Vec::new();
+    let mut n = 0u64;
+    for kind in [Kind::V1Sdsc, Kind::V2Sdsc, Kind::V2Sdhc] {
+        for crc in [true, false] {
+            for nth in 0..4u32 {
+                for hi in 0..8u8 {
+                    let token = (hi << 5) | 0x05;
+                    n += 1;
+                    let ops = [SdOp::Write(5, 1), SdOp::Write(8, 3), SdOp::Read(5, 1), SdOp::Read(8, 3)];
+                    let (_, r) = run_conversation_f(kind, crc, default_csd(kind), &ops, Chooser::default(), Fault::DataResponse { nth, token });
+                    for (sig, detail) in r.c12 {
+                        let sig = format!("accepted-token-spelling/{}", sig);
+                        if !out.iter().any(|x| x.sig == sig) {
+                            out.push(v("C12", sig, format!("{:?} card, CRC {}, data block {} answered with token {:#04x} (= accepted): {}", kind, if crc { "on" } else { "off" }, nth, token, detail), json!({"prop":"C12","kind":kind_code(kind),"crc":crc,"accept_token":token,"nth":nth})));
+                        }
+                    }
+                }
+            }
+        }
+    }
+    (out, n)
+}
+
 /// Every CSD register: the reported capacity must follow the register's own CSD_STRUCTURE.
 fn csd_sweep(tier: &str) -> (Vec<Violation>, u64) {
     let mut jobs: Vec<(Kind, [u8; 16])> = Vec::new();
@@ -614,6 +645,9 @@ pub fn run_c12(tier: &str) -> i32 {
     let (cv, cn) = csd_sweep(tier);
     rep.add_violations(agg.viols);
     rep.add_violations(cv);
+    let (av, an) = accept_token_sweep();
+    rep.add_violations(av);
+    rep.cov("accepted_token_spellings_runs", json!(an));
     rep.cov("states", json!(agg.conversations));
     rep.cov("transitions", json!(agg.runs));
     rep.cov("traces_validated_against_impl", json!(agg.runs + cn));
@@ -1282,6 +1316,13 @@ pub fn replay_input(inp: &Value) -> i32 {
         if let Some(x) = flip_case_op(kind, &bits, op) {
             found.push((x.sig, x.detail));
         }
+    } else if let Some(tok) = inp.get("accept_token").and_then(|x| x.as_u64()) {
+        let ops = [SdOp::Write(5, 1), SdOp::Write(8, 3), SdOp::Read(5, 1), SdOp::Read(8, 3)];
+        let (_, r) = run_conversation_f(kind, crc, default_csd(kind), &ops, Chooser::default(), Fault::DataResponse { nth: inp["nth"].as_u64().unwrap_or(0) as u32, token: tok as u8 });
+        for o in &r.outcomes {
+            println!("  {}", o);
+        }
+        found.extend(r.c12.into_iter().map(|(s, d)| (format!("accepted-token-spelling/{}", s), d)));
     } else if let Some(csd) = inp.get("csd").and_then(|x| x.as_str()) {
         let mut c = [0u8; 16];
         for i in 0..16 {
